@@ -65,7 +65,17 @@ ParOK(p) == /\ p.ref \in {"s", "l", "g"} /\ p.lock \in {"none", "s", "l", "g"} /
 Pre(s, op, a) ==
   CASE op = "eval" -> a.ph \in {"s", "l", "g"} /\ a.T20 > 0 /\ ParOK(s.par)
     [] op = "mix" -> a.ph \in {"s", "l", "g"} /\ a.T20 > 0 /\ ParOK(s.par) /\ ParOK(s.mix) /\ a.n1 >= 0 /\ a.n2 >= 0 /\ a.n1 + a.n2 > 0
+    \* the multi-phase forms (xH, xCn, xS): rows of <<phase label, n1, n2>> with labels s, l, g, S, L, every label at most once
+    [] op = "xmix" -> /\ a.T20 > 0 /\ ParOK(s.par) /\ ParOK(s.mix) /\ a.rows # <<>>
+                      /\ \A i \in DOMAIN a.rows : a.rows[i][1] \in {"s", "l", "g", "S", "L"} /\ a.rows[i][2] >= 0 /\ a.rows[i][3] >= 0
+                                                  /\ a.rows[i][2] + a.rows[i][3] > 0
+                      /\ \A i, j \in DOMAIN a.rows : i # j => a.rows[i][1] # a.rows[j][1]
+    \* a chemical of the bundled database built with reference phase a.ref: measured identities, deviations in ppm
+    [] op = "db" -> a.ref \in {"s", "l", "g"}
     [] OTHER -> FALSE
+Lower(ph) == CASE ph = "S" -> "s" [] ph = "L" -> "l" [] OTHER -> ph
+RECURSIVE SumRows(_, _)
+SumRows(F(_), rows) == IF rows = <<>> THEN 0 ELSE F(Head(rows)) + SumRows(F, Tail(rows))
 Post(s, op, a) == s
 Near(x, y, tol) == x - y <= tol /\ y - x <= tol
 Judge(s, e) ==
@@ -79,10 +89,35 @@ Judge(s, e) ==
        ELSE IF EvPh(p, a.ph) # "g" /\ ~Near(e.obs.S20, S20(p, a.ph, a.T20), 1) THEN "entropy.condensed"
        ELSE IF ~Near(e.obs.Cn20, Cn20(p, a.ph, a.T20), 1) THEN "heat_capacity"
        ELSE "ok"
+  ELSE IF e.op = "db" THEN
+       LET o == e.obs IN
+       IF o.refH > 10 THEN "db.reference_enthalpy_not_zero"
+       ELSE IF o.refS > 10 THEN "db.reference_entropy_not_S0"
+       ELSE IF o.jHvap > 10 THEN "db.jump_at_Tb_not_Hvap"
+       ELSE IF o.jSvap > 10 THEN "db.jump_at_Tb_not_Hvap_over_Tb"
+       ELSE IF o.jHfus > 10 THEN "db.jump_at_Tm_not_Hfus"
+       ELSE IF o.jSfus > 10 THEN "db.jump_at_Tm_not_Hfus_over_Tm"
+       ELSE IF o.press > 10 THEN "db.gas_entropy_pressure_term"
+       ELSE IF o.dH > 500 THEN "db.dH_dT_not_Cn"
+       ELSE IF o.dS > 500 THEN "db.dS_dT_not_Cn_over_T"
+       ELSE "ok"
+  ELSE IF e.op = "xmix" THEN
+       LET q == s.mix
+           XH(r) == r[2] * H400(p, Lower(r[1]), a.T20) + r[3] * H400(q, Lower(r[1]), a.T20)
+           XC(r) == r[2] * Cn20(p, Lower(r[1]), a.T20) + r[3] * Cn20(q, Lower(r[1]), a.T20)
+           XS(r) == r[2] * S20(p, Lower(r[1]), a.T20) + r[3] * S20(q, Lower(r[1]), a.T20) IN
+       IF ~Near(e.obs.H400, SumRows(XH, a.rows), 3) THEN "multiphase.enthalpy"
+       ELSE IF ~Near(e.obs.Cn20, SumRows(XC, a.rows), 3) THEN "multiphase.heat_capacity"
+       \* the pure-component part (the mixing term the library actually adds removed): every phase counted once
+       ELSE IF ~Near(e.obs.Slib20, SumRows(XS, a.rows), 3) /\ ~Near(e.obs.Sres20, SumRows(XS, a.rows), 3) THEN "multiphase.entropy_sum"
+       ELSE IF ~Near(e.obs.Sres20, SumRows(XS, a.rows), 3) THEN "multiphase.entropy"
+       ELSE "ok"
   ELSE \* mixture: mole-weighted sums; entropy exceeds them by the ideal mixing term (removed by the driver)
        LET q == s.mix IN
        IF ~Near(e.obs.H400, a.n1 * H400(p, a.ph, a.T20) + a.n2 * H400(q, a.ph, a.T20), 2) THEN "mixture.enthalpy"
        ELSE IF ~Near(e.obs.Cn20, a.n1 * Cn20(p, a.ph, a.T20) + a.n2 * Cn20(q, a.ph, a.T20), 2) THEN "mixture.heat_capacity"
+       ELSE IF ~Near(e.obs.Slib20, a.n1 * S20(p, a.ph, a.T20) + a.n2 * S20(q, a.ph, a.T20), 2)
+               /\ ~Near(e.obs.Sres20, a.n1 * S20(p, a.ph, a.T20) + a.n2 * S20(q, a.ph, a.T20), 2) THEN "mixture.entropy_sum"
        ELSE IF ~Near(e.obs.Sres20, a.n1 * S20(p, a.ph, a.T20) + a.n2 * S20(q, a.ph, a.T20), 2) THEN "mixture.entropy"
        ELSE IF e.obs.dSmix_negative THEN "mixing_lowers_entropy"
        ELSE "ok"
